@@ -939,12 +939,12 @@ def extension_oracle(env, items, info, m):
 def c08(tier):
     def body(s):
         s.functions.update(n for n in s.ctx.bodies if re.search(r'read_complex_content_node|import_extension_fields|import_sequence|find_node_by_xml_name|try_to_find_node', n))
-        fams = [F.x_chain(tier), F.x_chain(tier, decoy=True), F.x_chain(tier, decoy='global'), F.x_cross(tier), F.x_cross3(tier), F.x_diamond(tier), F.x_samename(tier)]
+        fams = [F.x_chain(tier), F.x_chain(tier, decoy=True), F.x_chain(tier, decoy='global'), F.x_cross(tier), F.x_cross3(tier), F.x_diamond(tier), F.x_samename(tier)] + F.x_particles(tier)
         for sc, info in fams:
             scenario_check(s, sc, info, extension_oracle, classify=lambda c, p, i: (c.cls(p) if c.cls else ''))
     return run_e2('C08', tier, body, bounds='extension chains of depth 1..2 plus an empty extension, fan-out 2, in one file with %s declaration orders, with and without a decoy type '
                   'whose local element/attribute names equal the base type names, and with global elements named like the base types (declared before and after them); base in another namespace and file with both declaration orders; a chain across three files; a diamond (two files importing and extending the same third file, both import orders); types with the same local name in two namespaces (derived type named like its foreign base; own base declared later while an imported type has its name). Own content: '
-                  'sequence, sequence+choice, attributes inside xs:extension, attributes on the base. Outside: depth > 2, complexContent/restriction.' % ('all 24' if tier == 'thorough' else '6'))
+                  'sequence, sequence+choice, attributes inside xs:extension, attributes on the base; own content = choice / all / sequence directly under xs:extension followed by own attributes. Outside: depth > 2, complexContent/restriction.' % ('all 24' if tier == 'thorough' else '6'))
 
 
 def references_resolve(items):
